@@ -4,6 +4,7 @@ translation fail loudly (the generated definition is then `[Stmt.raise "UNTRANSL
 theorems that mention it).  Output: lean/PydapModel/Generated/SliceSrc.lean, rewritten only when it changes."""
 import ast
 import os
+import re
 
 
 class Untranslatable(Exception):
@@ -14,26 +15,79 @@ def lstr(s):
     return '"' + s.replace("\\", "\\\\").replace('"', '\\"') + '"'
 
 
+# Opaque inputs of the block being translated: exact source text (ast.unparse) of an expression → the name of
+# the MiniPy variable that stands for its value.  Set per block by `abstracting(...)`; the theorem about the block
+# quantifies over the values of these variables.  Purely textual: nothing is evaluated.
+ABSTRACT = {}
+# Names (or abstracted expressions) of the block that hold text: `==` / `!=` on them is string comparison.
+STR_VARS = set()
+# When set, `return <expr>` of the block is translated as `@ret = "<source text of expr>"` (a routing decision).
+RETURN_TAGS = False
+
+
+class abstracting(object):
+    def __init__(self, table, str_vars=(), return_tags=False):
+        self.table, self.str_vars, self.return_tags = table, set(str_vars), return_tags
+
+    def __enter__(self):
+        global ABSTRACT, STR_VARS, RETURN_TAGS
+        self.old = (ABSTRACT, STR_VARS, RETURN_TAGS)
+        ABSTRACT, STR_VARS, RETURN_TAGS = self.table, self.str_vars, self.return_tags
+
+    def __exit__(self, *a):
+        global ABSTRACT, STR_VARS, RETURN_TAGS
+        ABSTRACT, STR_VARS, RETURN_TAGS = self.old
+
+
+def codes(text):
+    return "[%s]" % ", ".join(str(ord(c)) for c in text)
+
+
+def is_str(e):
+    return (isinstance(e, ast.Constant) and isinstance(e.value, str)) or (STR_VARS and ast.unparse(e) in STR_VARS)
+
+
+def is_strconst(e):
+    return isinstance(e, ast.Constant) and isinstance(e.value, str)
+
+
+def is_intconst(e):
+    return isinstance(e, ast.Constant) and isinstance(e.value, int) and not isinstance(e.value, bool)
+
+
 def expr(e):
+    if ABSTRACT:
+        key = ast.unparse(e)
+        if key in ABSTRACT:
+            return "(.var %s)" % lstr(ABSTRACT[key])
     if isinstance(e, ast.Constant):
         if e.value is None:
             return ".none"
         if isinstance(e.value, bool):
-            raise Untranslatable("bool constant")
+            return "(.boolc %s)" % ("true" if e.value else "false")
         if isinstance(e.value, int):
             return "(.int (%d))" % e.value
+        if isinstance(e.value, str):
+            return "(.strc %s)" % codes(e.value)
         raise Untranslatable("constant %r" % (e.value,))
     if isinstance(e, ast.Name):
         if e.id == "MAXSIZE":
             return ".maxsize"
         return "(.var %s)" % lstr(e.id)
     if isinstance(e, ast.Attribute):
+        if isinstance(e.value, ast.Name) and e.value.id == "sys" and e.attr == "byteorder":
+            return "(.var %s)" % lstr("sys.byteorder")      # the host byte order is an input of the block
         return "(.attr %s %s)" % (expr(e.value), lstr(e.attr))
     if isinstance(e, ast.BinOp):
-        op = {ast.Add: "add", ast.Sub: "sub", ast.Mult: "mul"}.get(type(e.op))
+        if is_strconst(e.left):
+            raise Untranslatable("string formatting with %")
+        op = {ast.Add: "add", ast.Sub: "sub", ast.Mult: "mul", ast.BitAnd: "band", ast.BitOr: "bor",
+              ast.RShift: "shr", ast.LShift: "shl", ast.Mod: "mod", ast.FloorDiv: "floordiv"}.get(type(e.op))
         if not op:
             raise Untranslatable("binop %s" % type(e.op).__name__)
         return "(.%s %s %s)" % (op, expr(e.left), expr(e.right))
+    if isinstance(e, ast.UnaryOp) and isinstance(e.op, ast.USub):
+        return "(.neg %s)" % expr(e.operand)
     if isinstance(e, ast.Compare):
         if len(e.ops) != 1:
             raise Untranslatable("chained comparison")
@@ -42,7 +96,11 @@ def expr(e):
             return "(.isNone %s)" % expr(e.left)
         if isinstance(op, ast.IsNot) and isinstance(r, ast.Constant) and r.value is None:
             return "(.isNotNone %s)" % expr(e.left)
-        name = {ast.Lt: "lt", ast.LtE: "le", ast.Gt: "gt", ast.GtE: "ge", ast.Eq: "eq"}.get(type(op))
+        if isinstance(op, (ast.Eq, ast.NotEq)) and (is_str(e.left) or is_str(r)):
+            return "(.%s %s %s)" % ("eqStr" if isinstance(op, ast.Eq) else "neStr", expr(e.left), expr(r))
+        if isinstance(op, ast.In) and isinstance(r, (ast.Tuple, ast.List)) and all(is_intconst(x) for x in r.elts):
+            return "(.inInts %s [%s])" % (expr(e.left), ", ".join("(%d)" % x.value for x in r.elts))
+        name = {ast.Lt: "lt", ast.LtE: "le", ast.Gt: "gt", ast.GtE: "ge", ast.Eq: "eq", ast.NotEq: "ne"}.get(type(op))
         if not name:
             raise Untranslatable("comparison %s" % type(op).__name__)
         return "(.%s %s %s)" % (name, expr(e.left), expr(r))
@@ -67,27 +125,110 @@ def expr(e):
         if f == "isinstance" and len(a) == 2 and isinstance(a[1], ast.Name) and a[1].id == "int":
             return "(.isInt %s)" % expr(a[0])
         if f == "len" and len(a) == 1:
+            if isinstance(a[0], ast.Constant) and isinstance(a[0].value, bytes):
+                return "(.len (.strc [%s]))" % ", ".join(str(b) for b in a[0].value)   # length of a bytes literal
             return "(.len %s)" % expr(a[0])
+        if f == "int" and len(a) == 1:
+            x = a[0]
+            if isinstance(x, ast.Call) and isinstance(x.func, ast.Attribute) and x.func.attr == "prod" \
+                    and isinstance(x.func.value, ast.Name) and x.func.value.id in ("np", "numpy") \
+                    and len(x.args) == 1 and not x.keywords:
+                return "(.prod %s)" % expr(x.args[0])          # int(np.prod(shape))
+            return "(.intOf %s)" % expr(x)
+        if f == "bool" and len(a) == 1:
+            return "(.boolOf %s)" % expr(a[0])
+    if isinstance(e, ast.Call) and isinstance(e.func, ast.Attribute) and e.func.attr == "format" \
+            and is_strconst(e.func.value) and len(e.args) == 1 and not e.keywords:
+        m = re.fullmatch(r"\{0:0(\d+)b\}", e.func.value.value)
+        if not m:
+            raise Untranslatable("format string %r" % e.func.value.value)
+        return "(.fmtBin %d %s)" % (int(m.group(1)), expr(e.args[0]))
+    if isinstance(e, ast.Call) and isinstance(e.func, ast.Attribute) and e.func.attr == "startswith" \
+            and len(e.args) == 1 and not e.keywords:
+        return "(.startswith %s %s)" % (expr(e.func.value), expr(e.args[0]))
+    if isinstance(e, ast.Call) and ast.unparse(e.func) == "os.path.join" and len(e.args) == 2 and not e.keywords \
+            and isinstance(e.args[1], ast.Constant) and e.args[1].value == "":
+        return "(.joinEmpty %s)" % expr(e.args[0])
+    if isinstance(e, ast.Subscript) and isinstance(e.slice, ast.Slice):
+        sl = e.slice
+        if sl.step is None and sl.lower is None and sl.upper is not None and is_intconst(sl.upper) \
+                and sl.upper.value >= 0:
+            return "(.takeN %s %d)" % (expr(e.value), sl.upper.value)          # x[:n]
+        if sl.step is None and sl.upper is None and sl.lower is not None and is_intconst(sl.lower) \
+                and sl.lower.value >= 0:
+            return "(.dropN %s %d)" % (expr(e.value), sl.lower.value)          # x[n:]
+        if sl.lower is None and sl.upper is None and isinstance(sl.step, ast.UnaryOp) \
+                and isinstance(sl.step.op, ast.USub) and is_intconst(sl.step.operand) and sl.step.operand.value == 1:
+            return "(.rev %s)" % expr(e.value)                   # x[::-1]
+        if sl.step is None and sl.lower is not None and sl.upper is not None:
+            return "(.slice2 %s %s %s)" % (expr(e.value), expr(sl.lower), expr(sl.upper))   # x[a:b]
+        raise Untranslatable("slice subscript")
+    if isinstance(e, ast.Subscript) and isinstance(e.value, ast.Dict):
+        d = e.value
+        if d.keys and all(k is not None and is_strconst(k) for k in d.keys) and all(is_strconst(v) for v in d.values):
+            tbl = ", ".join("(%s, %s)" % (codes(k.value), codes(v.value)) for k, v in zip(d.keys, d.values))
+            return "(.strMap [%s] %s)" % (tbl, expr(e.slice))
+        raise Untranslatable("dict literal")
+    if isinstance(e, ast.Subscript) and is_intconst(e.slice) and e.slice.value == 0 \
+            and isinstance(e.value, ast.Call) and ast.unparse(e.value.func) in ("numpy.frombuffer", "np.frombuffer") \
+            and len(e.value.args) == 1 and len(e.value.keywords) == 1 and e.value.keywords[0].arg == "dtype" \
+            and is_strconst(e.value.keywords[0].value) and e.value.keywords[0].value.value == ">u4":
+        return "(.beU32 %s)" % expr(e.value.args[0])          # numpy.frombuffer(b, dtype=">u4")[0]
     if isinstance(e, ast.Subscript) and isinstance(e.slice, ast.Constant) and isinstance(e.slice.value, int) \
             and e.slice.value >= 0:
         return "(.idx %s %d)" % (expr(e.value), e.slice.value)
     raise Untranslatable(ast.dump(e)[:80])
 
 
-def stmts(body, sink):
-    out = ".skip"
-    for s in reversed(body):
-        out = "(.seq %s %s)" % (stmt(s, sink), out) if out != ".skip" else stmt(s, sink)
-    return out
+def stmts(body, sink, tail=False):
+    """`tail`: the block is the last thing its function does, so a `return` at its end may be translated
+    (as assignments to `@ret` / `@ret0…`); a `return` anywhere else is outside the fragment."""
+    body = [s for s in body if not (isinstance(s, ast.Expr) and is_strconst(s.value))]      # docstrings
+    if tail:
+        # `if c: <body that always returns>` followed by more statements is `if c: body else: <the rest>`
+        for i, s in enumerate(body[:-1]):
+            if isinstance(s, ast.If) and always_returns(s.body) and not always_returns(s.orelse):
+                rest = list(s.orelse) + body[i + 1:]
+                head = stmts(body[:i], sink, False) if i else None
+                t = "(.ite %s %s %s)" % (expr(s.test), stmts(s.body, sink, True), stmts(rest, sink, True))
+                return t if head is None else "(.seq %s %s)" % (head, t)
+    out = None
+    for i, s in reversed(list(enumerate(body))):
+        t = stmt(s, sink, tail and i == len(body) - 1)
+        out = t if out is None else "(.seq %s %s)" % (t, out)
+    return out or ".skip"
 
 
-def stmt(s, sink):
+def always_returns(body):
+    if not body:
+        return False
+    last = body[-1]
+    if isinstance(last, (ast.Return, ast.Raise)):
+        return True
+    return isinstance(last, ast.If) and always_returns(last.body) and always_returns(last.orelse)
+
+
+def stmt(s, sink, tail=False):
+    if isinstance(s, ast.Return):
+        if not tail:
+            raise Untranslatable("return that is not in tail position")
+        if RETURN_TAGS:
+            return "(.assign %s (.strc %s))" % (lstr("@ret"), codes(ast.unparse(s.value) if s.value else "None"))
+        if s.value is None:
+            return "(.assign %s .none)" % lstr("@ret")
+        if isinstance(s.value, ast.Tuple):
+            parts = ["(.assign %s %s)" % (lstr("@ret%d" % i), expr(x)) for i, x in enumerate(s.value.elts)]
+            out = parts[-1]
+            for q in reversed(parts[:-1]):
+                out = "(.seq %s %s)" % (q, out)
+            return out
+        return "(.assign %s %s)" % (lstr("@ret"), expr(s.value))
     if isinstance(s, ast.Assign) and len(s.targets) == 1 and isinstance(s.targets[0], ast.Name):
         return "(.assign %s %s)" % (lstr(s.targets[0].id), expr(s.value))
     if isinstance(s, ast.AugAssign) and isinstance(s.target, ast.Name) and isinstance(s.op, ast.Add):
         return "(.augAdd %s %s)" % (lstr(s.target.id), expr(s.value))
     if isinstance(s, ast.If):
-        return "(.ite %s %s %s)" % (expr(s.test), stmts(s.body, sink), stmts(s.orelse, sink))
+        return "(.ite %s %s %s)" % (expr(s.test), stmts(s.body, sink, tail), stmts(s.orelse, sink, tail))
     if isinstance(s, ast.Raise):
         exc = s.exc
         name = exc.func.id if isinstance(exc, ast.Call) and isinstance(exc.func, ast.Name) else \
@@ -98,7 +239,18 @@ def stmt(s, sink):
             and s.value.func.attr == "append" and isinstance(s.value.func.value, ast.Name) \
             and s.value.func.value.id == sink and len(s.value.args) == 1:
         # `out.append(e)` of the enclosing loop: the item produced for this axis
-        return "(.assign %s %s)" % (lstr("@item"), expr(s.value.args[0]))
+        a0 = s.value.args[0]
+        if isinstance(a0, ast.Tuple):
+            parts = ["(.assign %s %s)" % (lstr("@item%d" % i), expr(x)) for i, x in enumerate(a0.elts)]
+            out = parts[-1]
+            for q in reversed(parts[:-1]):
+                out = "(.seq %s %s)" % (q, out)
+            return out
+        return "(.assign %s %s)" % (lstr("@item"), expr(a0))
+    if isinstance(s, ast.Break):
+        if not tail:
+            raise Untranslatable("break that is not the last thing the loop body does")
+        return "(.assign %s (.boolc true))" % lstr("@break")
     raise Untranslatable(ast.dump(s)[:80])
 
 
@@ -172,17 +324,244 @@ def generate(repo):
     return "\n".join(parts)
 
 
+HEADER = ("/- GENERATED by harness/py2lean.py from the repository's current source text. Do not edit. -/\n"
+          "import PydapModel.MiniPy\nnamespace Pydap.Gen\nopen Pydap.MiniPy Pydap.MiniPy.Expr Pydap.MiniPy.Stmt\n")
+
+
+def parse_src(repo, *rel):
+    with open(os.path.join(repo, "src", "pydap", *rel), encoding="utf-8") as f:
+        return ast.parse(f.read())
+
+
+def find_method(tree, cls, name):
+    for n in ast.walk(tree):
+        if isinstance(n, ast.ClassDef) and n.name == cls:
+            return find_function(n, name)
+    raise Untranslatable("class %s not found" % cls)
+
+
+def assignments(fn, names):
+    """the assignments `x = e` (x in names) of a function, in source order, as one block"""
+    found = [n for n in ast.walk(fn) if isinstance(n, ast.Assign) and len(n.targets) == 1
+             and isinstance(n.targets[0], ast.Name) and n.targets[0].id in names]
+    found.sort(key=lambda n: (n.lineno, n.col_offset))
+    if [n.targets[0].id for n in found] != list(names):
+        raise Untranslatable("expected exactly the assignments %s, found %s"
+                             % (list(names), [n.targets[0].id for n in found]))
+    return stmts(found, None)
+
+
+def generate_dap(repo):
+    """handlers/dap.py: DAP4 chunk-header decoding (C10, C09)"""
+    dap = parse_src(repo, "handlers", "dap.py")
+
+    def chunktype():
+        return stmts(find_function(dap, "decode_chunktype").body, None, tail=True)
+
+    def s2b_fields():
+        return assignments(find_function(dap, "stream2bytearray"), ["chunk_size", "chunk_type"])
+
+    def s2b_body():
+        fn = find_function(dap, "stream2bytearray")
+        lp = [n for n in fn.body if isinstance(n, ast.While)]
+        if len(lp) != 1 or ast.unparse(lp[0].test) != "offset < len(data)":
+            raise Untranslatable("expected one `while offset < len(data):`")
+        # the call is set aside: `last` is an input of the block (its value is tied by src_decode_chunktype,
+        # its argument by the exact text required here)
+        body = drop_statements(lp[0].body, ["last, _, _ = decode_chunktype(chunk_type)"])
+        return "(.seq (.assign %s (.boolc false)) %s)" % (lstr("@break"), stmts(body, "chunk_positions", tail=True))
+
+    def dmr_fields():
+        return assignments(find_method(dap, "UNPACKDAP4DATA", "safe_dmr_and_data"), ["dmr_length", "chunk_type"])
+
+    def endian_fields():
+        return assignments(find_function(dap, "get_endianness"), ["chunk_type"])
+
+    parts = [HEADER,
+             block("src_decode_chunktype", "handlers/dap.py decode_chunktype: the whole body; `return a, b, c` is "
+                   "`@ret0 = a; @ret1 = b; @ret2 = c`; `sys.byteorder` is the input variable `sys.byteorder`",
+                   chunktype),
+             block("src_stream2bytearray_fields", "handlers/dap.py stream2bytearray: `chunk_size = …; chunk_type = …` "
+                   "computed from `chunk_header`", s2b_fields),
+             block("src_stream2bytearray_turn", "handlers/dap.py stream2bytearray: one turn of `while offset < len(data)`; "
+                   "`chunk_positions.append((a, b))` is `@item0 = a; @item1 = b`, `break` is `@break = True` (initially "
+                   "False); `last, _, _ = decode_chunktype(chunk_type)` is set aside (`last` is an input)", s2b_body),
+             block("src_safe_dmr_and_data_fields", "handlers/dap.py UNPACKDAP4DATA.safe_dmr_and_data: "
+                   "`dmr_length = …; chunk_type = …` computed from `chunk_header`", dmr_fields),
+             block("src_get_endianness_fields", "handlers/dap.py get_endianness: `chunk_type = …` computed from "
+                   "`chunk_header`", endian_fields),
+             "end Pydap.Gen\n"]
+    return "\n".join(parts)
+
+
+def pad_exprs(fn, expected):
+    """every `-x % c` (x a name, c an int literal) of a function, in source order: `@pad<i> = -x % c`"""
+    found = [n for n in ast.walk(fn) if isinstance(n, ast.BinOp) and isinstance(n.op, ast.Mod)
+             and isinstance(n.left, ast.UnaryOp) and isinstance(n.left.op, ast.USub)
+             and isinstance(n.left.operand, ast.Name) and is_intconst(n.right)]
+    found.sort(key=lambda n: (n.lineno, n.col_offset))
+    if len(found) != expected:
+        raise Untranslatable("expected %d padding expressions `-x %% c`, found %d" % (expected, len(found)))
+    parts = ["(.assign %s %s)" % (lstr("@pad%d" % i), expr(x)) for i, x in enumerate(found)]
+    out = parts[-1]
+    for q in reversed(parts[:-1]):
+        out = "(.seq %s %s)" % (q, out)
+    return out
+
+
+def generate_dods(repo):
+    """responses/dods.py (+ the reading side in handlers/dap.py): XDR size and padding arithmetic (C05)"""
+    dods = parse_src(repo, "responses", "dods.py")
+    dap = parse_src(repo, "handlers", "dap.py")
+
+    def is_isinstance(test, var, cls):
+        return isinstance(test, ast.Call) and isinstance(test.func, ast.Name) and test.func.id == "isinstance" \
+            and len(test.args) == 2 and isinstance(test.args[0], ast.Name) and test.args[0].id == var \
+            and isinstance(test.args[1], ast.Name) and test.args[1].id == cls
+
+    def calc_base():
+        fn = find_function(dods, "calculate_size")
+        lp = loops(fn)[-1]                                  # `for var in walk(dataset):`
+        branch = [n for n in ast.walk(lp) if isinstance(n, ast.If) and is_isinstance(n.test, "var", "BaseType")]
+        if len(branch) != 1 or branch[0].orelse:
+            raise Untranslatable("expected one `elif isinstance(var, BaseType):` without else")
+        body = [x for x in branch[0].body
+                if not (isinstance(x, ast.Assign) and isinstance(x.targets[0], ast.Name)
+                        and x.targets[0].id == "DAP2_dtype")]   # `DAP2_dtype = DAP2_response_dtypemap(…)`: an input
+        if len(body) != len(branch[0].body) - 1:
+            raise Untranslatable("expected exactly one `DAP2_dtype = …` assignment")
+        with abstracting({"var.shape": "var.shape", "DAP2_dtype == np.ubyte": "@is_ubyte",
+                          "DAP2_dtype.itemsize": "@itemsize"}):
+            return stmts(body, None)
+
+    def calc_tail():
+        fn = find_function(dods, "calculate_size")
+        tail = [x for x in fn.body if isinstance(x, (ast.AugAssign, ast.Return))]
+        if len(tail) != 2:
+            raise Untranslatable("expected `length += …; return length` after the loop")
+        with abstracting({"len(''.join(dds(dataset)))": "@dds_len"}):
+            return stmts(tail, None, tail=True)
+
+    def dods_pads():
+        return "(.seq %s %s)" % (pad_exprs(find_function(dods, "_sequencetype"), 1).replace("@pad0", "@seqpad0"),
+                                 pad_exprs(find_function(dods, "_basetype"), 2))
+
+    def dap_pads():
+        return pad_exprs(find_function(dap, "convert_stream_to_list"), 3)
+
+    parts = [HEADER,
+             block("src_calculate_size_base", "responses/dods.py calculate_size: body of `elif isinstance(var, BaseType):` "
+                   "without `DAP2_dtype = DAP2_response_dtypemap(…)`; inputs: `var.shape`, `@is_ubyte` for "
+                   "`DAP2_dtype == np.ubyte`, `@itemsize` for `DAP2_dtype.itemsize`", calc_base),
+             block("src_calculate_size_tail", "responses/dods.py calculate_size: `length += len(dds) + len(b\"Data:\\n\"); "
+                   "return length` (the DDS length is an input)", calc_tail),
+             block("src_dods_paddings", "responses/dods.py: the padding counts `-length % 4` of _sequencetype (1) and "
+                   "_basetype (2)", dods_pads),
+             block("src_convert_stream_paddings", "handlers/dap.py convert_stream_to_list: the three `stream.read(-k % 4)` "
+                   "counts", dap_pads),
+             "end Pydap.Gen\n"]
+    return "\n".join(parts)
+
+
+
+def drop_statements(body, texts):
+    """remove, anywhere in `body`, the statements whose source text is listed; each must occur exactly once"""
+    seen = []
+
+    class T(ast.NodeTransformer):
+        def generic_visit(self, node):
+            super().generic_visit(node)
+            for field in ("body", "orelse"):
+                lst = getattr(node, field, None)
+                if isinstance(lst, list):
+                    keep = []
+                    for x in lst:
+                        if isinstance(x, ast.stmt) and ast.unparse(x) in texts:
+                            seen.append(ast.unparse(x))
+                        else:
+                            keep.append(x)
+                    setattr(node, field, keep)
+            return node
+
+    holder = ast.Module(body=list(body), type_ignores=[])
+    T().visit(holder)
+    if sorted(seen) != sorted(texts):
+        raise Untranslatable("statements to set aside not found exactly once: %s"
+                             % sorted(set(texts) ^ set(seen)))
+    return holder.body
+
+
+def generate_app(repo):
+    """wsgi/app.py DapServer.__call__: containment test and routing order (C16)"""
+    app = parse_src(repo, "wsgi", "app.py")
+
+    def call_body():
+        fn = find_method(app, "DapServer", "__call__")
+        body = [x for x in fn.body if not (isinstance(x, ast.Expr) and is_strconst(x.value))]
+        first = body[0]
+        if not (isinstance(first, ast.Assign) and isinstance(first.targets[0], ast.Name)
+                and first.targets[0].id == "path"):
+            raise Untranslatable("expected `path = …` first")
+        # `path = os.path.abspath(os.path.join(self.path, *req.path_info.split("/")))` is the input;
+        # the statements set aside below do not take part in the routing decision
+        rest = drop_statements(body[1:], [
+            "base, ext = os.path.splitext(path)",
+            "req.environ['pydap.jinja2.environment'] = self.env",
+            "app = ServerSideFunctions(get_handler(base, self.handlers))"])
+        table = {"self.path": "self.path",
+                 "os.path.exists(path)": "@exists", "os.path.isdir(path)": "@isdir",
+                 "os.path.basename(path)": "@basename",
+                 "os.path.isdir(os.path.dirname(path))": "@isdir_parent",
+                 "os.path.isfile(base)": "@isfile_base"}
+        with abstracting(table, str_vars={"path", "self.path", "os.path.basename(path)"}, return_tags=True):
+            return stmts(rest, None, tail=True)
+
+    parts = [HEADER,
+             block("src_dapserver_call", "wsgi/app.py DapServer.__call__ after `path = …`: the containment test and the "
+                   "routing order; `return e` is `@ret = \"<source text of e>\"`; file-system tests are input "
+                   "variables (`@exists`, `@isdir`, `@basename`, `@isdir_parent`, `@isfile_base`)", call_body),
+             "end Pydap.Gen\n"]
+    return "\n".join(parts)
+
+
+def generate_ce(repo):
+    """parsers/__init__.py parse_ce: the protocol / `dap4.ce=` prefix guard (C15's `parseCE`)"""
+    par = parse_src(repo, "parsers", "__init__.py")
+
+    def guard():
+        fn = find_function(par, "parse_ce")
+        body = [x for x in fn.body if not (isinstance(x, ast.Expr) and is_strconst(x.value))]
+        first = body[0]
+        if not (isinstance(first, ast.If) and ast.unparse(first.test) == "protocol == 'dap2'"):
+            raise Untranslatable("expected `if protocol == \"dap2\":` first")
+        return stmt(first, None)
+
+    parts = [HEADER,
+             block("src_parse_ce_guard", "parsers/__init__.py parse_ce: the first statement, `if protocol == \"dap2\": … "
+                   "elif protocol == \"dap4\": …` (separator key, `dap4.ce=` prefix test, prefix removal)", guard),
+             "end Pydap.Gen\n"]
+    return "\n".join(parts)
+
+
+GENERATORS = [("SliceSrc.lean", generate), ("DapSrc.lean", generate_dap), ("DodsSrc.lean", generate_dods),
+              ("AppSrc.lean", generate_app), ("CeSrc.lean", generate_ce)]
+
+
 def write(repo, verif):
-    text = generate(repo)
-    path = os.path.join(verif, "lean", "PydapModel", "Generated", "SliceSrc.lean")
-    os.makedirs(os.path.dirname(path), exist_ok=True)
-    old = open(path, encoding="utf-8").read() if os.path.exists(path) else None
-    if old != text:
-        with open(path, "w", encoding="utf-8") as f:
-            f.write(text)
-        return True
-    return False
+    changed = False
+    for fname, gen in GENERATORS:
+        text = gen(repo)
+        path = os.path.join(verif, "lean", "PydapModel", "Generated", fname)
+        os.makedirs(os.path.dirname(path), exist_ok=True)
+        old = open(path, encoding="utf-8").read() if os.path.exists(path) else None
+        if old != text:
+            with open(path, "w", encoding="utf-8") as f:
+                f.write(text)
+            changed = True
+    return changed
 
 
 if __name__ == "__main__":
-    print(generate(os.environ.get("VERIF_REPO", "/repo")))
+    for fname, gen in GENERATORS:
+        print("-- " + fname)
+        print(gen(os.environ.get("VERIF_REPO", "/repo")))
